@@ -220,6 +220,147 @@ func c01PresenceHelper(p *an.Prog, pkgFns []*ssa.Function, H *ssa.Function) bool
 	})
 }
 
+// ---- role-based resolution of unexported types and fields -----------------
+
+// c01StructTypes lists the named struct types declared in a root package.
+func c01StructTypes(p *an.Prog, rel string) []*types.Named {
+	pk := p.Pkg(rel)
+	if pk == nil {
+		return nil
+	}
+	var out []*types.Named
+	sc := pk.Types.Scope()
+	for _, nm := range sc.Names() {
+		tn, ok := sc.Lookup(nm).(*types.TypeName)
+		if !ok || tn.IsAlias() {
+			continue
+		}
+		n, ok := tn.Type().(*types.Named)
+		if !ok {
+			continue
+		}
+		if _, ok := n.Underlying().(*types.Struct); ok {
+			out = append(out, n)
+		}
+	}
+	return out
+}
+
+// c01Implements: T or *T implements the named interface pkgRel.iface.
+func c01Implements(p *an.Prog, n *types.Named, pkgRel, iface string) bool {
+	pk := p.Pkg(pkgRel)
+	if pk == nil {
+		return false
+	}
+	tn, _ := pk.Types.Scope().Lookup(iface).(*types.TypeName)
+	if tn == nil {
+		return false
+	}
+	it, ok := tn.Type().Underlying().(*types.Interface)
+	if !ok {
+		return false
+	}
+	return types.Implements(n, it) || types.Implements(types.NewPointer(n), it)
+}
+
+// c01FieldBy returns the fields of struct type n whose type satisfies pred.
+func c01FieldBy(n *types.Named, pred func(types.Type) bool) []*types.Var {
+	st, ok := n.Underlying().(*types.Struct)
+	if !ok {
+		return nil
+	}
+	var out []*types.Var
+	for i := 0; i < st.NumFields(); i++ {
+		if pred(st.Field(i).Type()) {
+			out = append(out, st.Field(i))
+		}
+	}
+	return out
+}
+
+func c01One(fs []*types.Var) *types.Var {
+	if len(fs) == 1 {
+		return fs[0]
+	}
+	return nil
+}
+
+// c01TypeByField: the single struct type of the package that implements
+// blockstore.Blockstore (when wantBS) and has exactly one field satisfying pred.
+func c01TypeByField(p *an.Prog, rel string, wantBS bool, pred func(types.Type) bool) *types.Named {
+	var found *types.Named
+	for _, n := range c01StructTypes(p, rel) {
+		if wantBS && !c01Implements(p, n, "blockstore", "Blockstore") {
+			continue
+		}
+		if len(c01FieldBy(n, pred)) >= 1 {
+			if found != nil {
+				return nil
+			}
+			found = n
+		}
+	}
+	return found
+}
+
+// c01ResultType: the struct type behind the (interface) result of an exported constructor.
+func c01ResultType(p *an.Prog, rel, ctor string) *types.Named {
+	fn := p.Func(rel, "", ctor)
+	if fn == nil {
+		return nil
+	}
+	for _, r := range an.Returns(fn) {
+		if len(r.Results) == 0 {
+			continue
+		}
+		for _, root := range an.Roots(r.Results[0], nil) {
+			t := root.Type()
+			if pt, ok := t.(*types.Pointer); ok {
+				t = pt.Elem()
+			}
+			if n, ok := types.Unalias(t).(*types.Named); ok {
+				if _, isSt := n.Underlying().(*types.Struct); isSt {
+					return n
+				}
+			}
+		}
+	}
+	return nil
+}
+
+// c01MethodsOf: SSA methods of a named type of a root package.
+func c01MethodsOf(p *an.Prog, rel string, n *types.Named) []*ssa.Function {
+	if n == nil {
+		return nil
+	}
+	return p.Methods(rel, n.Obj().Name())
+}
+
+func c01IsBlockstoreT(t types.Type) bool { return an.TypeIs(t, "blockstore", "Blockstore") }
+func c01IsViewerT(t types.Type) bool     { return an.TypeIs(t, "blockstore", "Viewer") }
+
+// the datastore-backed blockstore, the identity store, the two caches
+func c01TBlockstore(p *an.Prog) *types.Named {
+	if n := c01ResultType(p, "blockstore", "NewBlockstore"); n != nil {
+		return n
+	}
+	return c01TypeByField(p, "blockstore", true, func(t types.Type) bool { return an.TypeIs(t, c01DS, "Batching") })
+}
+
+func c01TIdstore(p *an.Prog) *types.Named { return c01ResultType(p, "blockstore", "NewIdStore") }
+
+func c01TTqcache(p *an.Prog) *types.Named {
+	return c01TypeByField(p, "blockstore", true, func(t types.Type) bool {
+		return an.TypeIs(t, "github.com/hashicorp/golang-lru/v2", "TwoQueueCache")
+	})
+}
+
+func c01TBloomcache(p *an.Prog) *types.Named {
+	return c01TypeByField(p, "blockstore", true, func(t types.Type) bool {
+		return an.TypeIs(t, "sync/atomic", "Pointer") && strings.Contains(t.String(), "bbloom.Bloom")
+	})
+}
+
 func c01InFns(fns []*ssa.Function, f *ssa.Function) bool {
 	for _, g := range fns {
 		if g == f {
@@ -344,7 +485,11 @@ func c01Closure(fns []*ssa.Function) []*ssa.Function {
 func runC01(c *an.Ctx) {
 	p := c.P
 	const bsPkg = "blockstore"
-	bsFns := c01Closure(p.Methods(bsPkg, "blockstore"))
+	tBS, tID := c01TBlockstore(p), c01TIdstore(p)
+	if !c.Need(tBS != nil && tID != nil, "the struct types behind blockstore.NewBlockstore and blockstore.NewIdStore") {
+		return
+	}
+	bsFns := c01Closure(c01MethodsOf(p, bsPkg, tBS))
 	if !c.Need(len(bsFns) > 0, "methods of blockstore.blockstore") {
 		return
 	}
@@ -556,7 +701,7 @@ func runC01(c *an.Ctx) {
 
 	// ---- O11: batched puts process every block of the batch
 	nO11 := 0
-	for _, fn := range append(append([]*ssa.Function{}, p.Methods(bsPkg, "blockstore")...), p.Methods(bsPkg, "idstore")...) {
+	for _, fn := range append(append([]*ssa.Function{}, c01MethodsOf(p, bsPkg, tBS)...), c01MethodsOf(p, bsPkg, tID)...) {
 		nO11 += c01BatchComplete(c, fn, "O11")
 	}
 	c.Min("O11 batched puts (blockstore, idstore)", nO11, 1)
@@ -747,8 +892,12 @@ func runC01(c *an.Ctx) {
 func c01Idstore(c *an.Ctx) {
 	p := c.P
 	const bsPkg = "blockstore"
-	fBs, fViewer := p.Field(bsPkg, "idstore", "bs"), p.Field(bsPkg, "idstore", "viewer")
-	meths := p.Methods(bsPkg, "idstore")
+	tID := c01TIdstore(p)
+	if !c.Need(tID != nil, "the struct type behind blockstore.NewIdStore") {
+		return
+	}
+	fBs, fViewer := c01One(c01FieldBy(tID, c01IsBlockstoreT)), c01One(c01FieldBy(tID, c01IsViewerT))
+	meths := c01MethodsOf(p, bsPkg, tID)
 	if !c.Need(fBs != nil && fViewer != nil && len(meths) > 0, "blockstore.idstore fields bs, viewer and methods") {
 		return
 	}
